@@ -847,7 +847,56 @@ pub fn generate(seed: u64, knobs: &Knobs) -> C10Scenario {
                         path: path.clone(),
                         body: Body::Text(text),
                     }),
+                    None if matches!(opts.config, ConfigSource::Default) => {
+                        // the default configuration file was removed earlier: it comes back
+                        world.config_path = Some(".darklua.json".to_owned());
+                        new_ops.push(Op::Add {
+                            path: ".darklua.json".to_owned(),
+                            body: Body::Text(text),
+                        });
+                    }
                     None => new_ops.push(Op::ConfigObject { text }),
+                }
+            }
+            85..=86 if knobs.layer == Layer::L1
+                && matches!(opts.config, ConfigSource::Default)
+                && world.sourcemap.is_none()
+                && world.config.convert_path_aliases.is_none() =>
+            {
+                // life cycle of the default configuration files: removed (darklua falls back
+                // to its default configuration), created again, or both names present at
+                // once (an error for the whole pass until one of them goes away)
+                let names = [".darklua.json", ".darklua.json5"];
+                let text = world.config.to_text();
+                match &world.config_path {
+                    Some(path) if rh.chance(1, 2) => {
+                        let path = path.clone();
+                        world.config_path = None;
+                        new_ops.push(Op::RemoveFile { path });
+                    }
+                    Some(path) => {
+                        // the other default name appears too, then one of the two goes away
+                        let other = if path == names[0] { names[1] } else { names[0] };
+                        new_ops.push(Op::Add {
+                            path: other.to_owned(),
+                            body: Body::Text(text.clone()),
+                        });
+                        new_ops.push(Op::Pass);
+                        let keep_other = rh.chance(1, 2);
+                        let gone = if keep_other { path.clone() } else { other.to_owned() };
+                        if keep_other {
+                            world.config_path = Some(other.to_owned());
+                        }
+                        new_ops.push(Op::RemoveFile { path: gone });
+                    }
+                    None => {
+                        let name = *rh.pick(&names);
+                        world.config_path = Some(name.to_owned());
+                        new_ops.push(Op::Add {
+                            path: name.to_owned(),
+                            body: Body::Text(text),
+                        });
+                    }
                 }
             }
             85..=89 => {
